@@ -16,8 +16,8 @@ func init() {
 		ID:    "C20",
 		Level: "model_checking",
 		Rule: "(a) input catalogue, bounded-exhaustive: for every RPC / endpoint a valid base request and every single and pairwise perturbation of a finite catalogue (fields dropped / empty / negative / huge / wrong type, oneofs unset, unknown names and ids, malformed URLs, every truncation point of JSON, multipart and batch bodies, bad ranges / content types / boundaries, gzip flags on non-gzip data, stream Send failures), each run as a one-thread controlled execution so that a lock left held or unlocked twice is seen as deadlock / panic; " +
-			"(b) request mixes: every unordered pair (selected triples) of admin and data requests on one table / one bucket under the controlled scheduler, preemption-bounded, built with the race detector and a hand-off that creates no happens-before edge, so that every explored schedule is judged by the program's own synchronisation; violation = panic, deadlock, fatal runtime error, malformed response, batch part differing from the stand-alone request, lost bystander data, or a race report; " +
-			"(c) admin/data mixes on the table registry (create / delete / re-create a table, schema changes, clears racing writes and reads): every interleaving within the preemption bound, the recorded history plus closing observations (ListTables, GetTable, full reads) must be linearizable against the reference model - data acknowledged before or during the mix is intact afterwards",
+			"(b) request mixes: every unordered pair (selected triples) of admin and data requests on one table / one bucket under the controlled scheduler, preemption-bounded, built with the race detector and a hand-off that creates no happens-before edge, so that every explored schedule is judged by the program's own synchronisation (incl. gzip-compressed requests whose bodies arrive slowly, one of them refused before its body is read; two requests of ONE resumable session in flight at once, the session then asked what it has received and completed; first writes into a bucket racing its creation; clients that go away while waiting for a lock); violation = panic, deadlock, fatal runtime error, malformed response, batch part differing from the stand-alone request, lost bystander data, or a race report; " +
+			"(c) admin/data mixes on the table registry (create / delete / re-create a table, schema changes, clears racing writes and reads): every interleaving within the preemption bound, the recorded history plus closing observations (ListTables, GetTable, full reads) must be linearizable against the reference model - data acknowledged before or during the mix is intact afterwards; the emulator stopped (Server.Close) while requests are in flight must not deadlock; on the disk engine the closing observations are repeated after a stop + start",
 		Assumptions: []string{"the race detector reports each distinct race once per worker process (first schedule that exhibits it)", "responses from the transport-level gzip wrapper may be plain text; API-level errors must carry a JSON error body"},
 		Run:         runC20,
 		Replay:      replayC20,
